@@ -17,7 +17,7 @@ func init() {
 	mc.Register(&mc.Property{
 		ID:    "C15",
 		Title: "Parsing recovers exactly the script written",
-		Rule: "all scripts of the grammar-complete typed generator up to weight W (every alternative of every rule, nesting up to the stage's depth) x layouts by deviation bounding: single space everywhere, then every set of <= K token gaps (including before the first and after the last token) replaced by each of {tab, LF, CRLF, two spaces, /* c */, /* é€ */, // c LF, nothing}; layouts that change the token sequence (decided by the reference lexer) are not cases; " +
+		Rule: "all scripts of the grammar-complete typed generator up to weight W (every alternative of every rule, nesting up to the stage's depth) x layouts by deviation bounding: single space everywhere, then every set of <= K token gaps (including before the first and after the last token) replaced by each of {tab, LF, CRLF, two spaces, /* c */, /* é€ */, // c LF, nothing, a lone CR (a character of its line for the parser), blank CR blank LF}; layouts that change the token sequence (decided by the reference lexer) are not cases; " +
 			"oracle: parser.Parse(text).Value equals the generator's tree node by node (kinds, field roles, literal values, left-nested infix chains, declarations and origins), zero parse errors, and every range equals the span recorded by the printer, in characters; " +
 			"non-trivial = the layout is not the default one or the script has a composite source/destination; distinct = rendered text",
 		Assumptions: []string{"the reference lexer (harness/ref/syntax.go) decides which layouts keep the token sequence", "numbers are compared as int64 (literals beyond int64 are C14's subject)"},
@@ -27,7 +27,7 @@ func init() {
 	})
 }
 
-var c15Seps = []string{" ", "\t", "\n", "\r\n", "  ", "/* c */", "/* é€ */", "// c\n", ""}
+var c15Seps = []string{" ", "\t", "\n", "\r\n", "  ", "/* c */", "/* é€ */", "// c\n", "", "\r", " \r \n"}
 
 func sameTokens(text string, toks []string) bool {
 	lr := ref.Lex(text)
@@ -56,7 +56,7 @@ func runC15(w *mc.Worker) {
 	}
 	for _, b := range stages {
 		b := b
-		w.Stage(b.name, fmt.Sprintf("scripts of weight <= %d, nesting depth <= %d, <= %d statements; <= %d token gaps re-laid out with 8 alternative separators", b.weight, b.depth, b.stmts, b.layouts), func() {
+		w.Stage(b.name, fmt.Sprintf("scripts of weight <= %d, nesting depth <= %d, <= %d statements; <= %d token gaps re-laid out with 10 alternative separators", b.weight, b.depth, b.stmts, b.layouts), func() {
 			g := &Full{MaxStmts: b.stmts, Depth: b.depth}
 			w.Outer(b.name+"/script", b.weight, func(o *mc.Explorer) {
 				prog := g.Program(o)
@@ -67,6 +67,16 @@ func runC15(w *mc.Worker) {
 				}
 				w.Owned()
 				composite := strings.Contains(base, "{") || strings.Contains(base, "max") || strings.Contains(base, "allowing")
+				// the tree of the default layout, parsed first: it must still be the tree of that text
+				// after every later parse (nodes or ranges shared between parses would change it)
+				var first parser.ParseResult
+				firstOK := false
+				dseps := pr.DefaultSeps()
+				dseps[len(pr.Toks)] = "\n"
+				dtext, dstarts, dends := pr.Render(dseps)
+				if m, _ := guard(func() { first = parser.Parse(dtext) }); m == "" && len(first.Errors) == 0 {
+					firstOK = true
+				}
 				w.Inner(b.layouts, func(in *mc.Explorer) {
 					seps := make([]string, len(pr.Toks)+1)
 					costs := make([]int, len(c15Seps))
@@ -164,6 +174,17 @@ func runC15(w *mc.Worker) {
 						c := mk()
 						c.Observed = cmp.rangeDiff
 						w.Violation("C15.range:"+cmp.rangeKind+feat, "a range does not delimit the text of its construct: "+cmp.rangeDiff, len(text), c)
+					}
+					if firstOK && cmp.structDiff == "" && cmp.rangeDiff == "" {
+						again := &astCmp{spans: pr.Spans, starts: dstarts, ends: dends, checkRanges: true}
+						m, _ := guard(func() { again.program(prog, first.Value) })
+						if m != "" || again.structDiff != "" || again.rangeDiff != "" {
+							c := mk()
+							c.Observed = "tree of the earlier text now: " + m + again.structDiff + again.rangeDiff
+							c.Extra = map[string]any{"earlier_text": dtext}
+							w.Violation("C15.earlier-tree-changed", "the tree parsed from an earlier text (the same script in the one-line layout) changed when this text was parsed: it no longer has the structure and ranges of its own text", len(text), c)
+							firstOK = false
+						}
 					}
 					if nt && dev > 0 {
 						w.Sample(fmt.Sprintf("dev%d-%d", dev, len(text)%7), mk())
